@@ -219,7 +219,7 @@ FACETS = [
     Facet("cipher-roundtrip-singlebit", check_roundtrip, cases=roundtrip_cases, shards={"quick": 16, "thorough": 16},
           nontrivial=lambda c: len(set(c["block"])) > 1, classify=lambda c: (CI.label(c),),
           rule="per configuration (all TDEA key-passing forms): every single-bit block (every third bit for Threefish in the quick tier), zero and all-one blocks, random key"),
-    Facet("cipher-roundtrip-random", check_roundtrip, strategy=roundtrip_strategy, budget={"quick": 1600, "thorough": 60000},
+    Facet("cipher-roundtrip-random", check_roundtrip, strategy=roundtrip_strategy, budget={"quick": 3000, "thorough": 60000},
           shards={"quick": 16, "thorough": 32}, nontrivial=lambda c: len(set(c["block"])) > 1, classify=lambda c: (CI.label(c),),
           rule="random configurations and blocks: dec(enc(B)) == B == enc(dec(B)), lengths, and a second equally configured object decrypts"),
     Facet("components-exhaustive", check_component, cases=component_cases, exhaustive=True, distinct=False,
